@@ -15,7 +15,7 @@ RULE = ('cases: histories over {learn(snet, router, dnets, status), status(snet,
         '3..6, random ones of length 300 (also over a wider domain 5 x 5 x 8), the repaired-defect witnesses, two systematic families (the same MAC on two source networks followed by forget / renumber / announce on one of them; a router announcing dnets held by two different routers of the same source network); the cache is '
         'dumped after EVERY operation (key sets, every router record, every lookup, identity of the record a path leads to). '
         'nsap cases: the same kind of history sent as real IAmRouterToNetwork / NetworkNumberIs / routed NPDUs (same MACs 1..3 on both LANs) plus delete_router_references calls over two '
-        'vlan.Networks into a two- or three-adapter NetworkServiceAccessPoint whose adapters sit on link stubs that go down (downstream requests raise) and come back while frames keep arriving; cache dumped after each frame / link change, compared with the model '
+        'vlan.Networks into a two- or three-adapter NetworkServiceAccessPoint whose adapters sit on link stubs that go down (downstream requests raise) and come back while frames keep arriving; cache dumped after each frame / link change, compared with the model; aged-process scenarios (the real TaskManager\'s same-instant tie-break counter advanced to just before 2^16 / 2^20, then two competing announcements queued back to back in one instant: the newest must win) '
         'run on the operations the frames stand for.  direct: breadth-first over all DISTINCT reachable cache states to depth '
         '2 (quick) / 4 (thorough) with every op of the alphabet applied to each (= all histories of length <= 3 / 5, since the '
         'predicate depends on the state only), random histories of length 300, and next-hop MAC of frames emitted by the '
@@ -463,6 +463,37 @@ class Rig:
         self.nodes[(lan, mac)].indication(pdu)
         self.drain()
 
+    def age(self, modulus):
+        """an aged process: advance the TaskManager's same-instant tie-break counter (without replacing it)
+        so that the NEXT task scheduled gets a sequence number = -1 modulo `modulus` - whatever wraps at a
+        power of two <= modulus wraps between the next two tasks.  Silent when there is no such counter."""
+        tm = _TM[0]
+        if tm is None or not hasattr(tm, 'counter'):
+            return 0
+        try:
+            v = next(tm.counter)
+        except Exception:
+            return 0
+        k = (modulus - 1 - (v + 1)) % modulus if isinstance(v, int) else modulus - 2
+        c = tm.counter
+        for _ in range(k):
+            next(c)
+        return k
+
+    def send_iam_pair(self, lan, mac1, dnets1, mac2, dnets2):
+        """two announcements put on the LAN back to back in the same clock instant, mac1's first"""
+        from bacpypes.pdu import PDU, LocalBroadcast
+        from bacpypes.npdu import NPDU, IAmRouterToNetwork
+        for mac, dnets in ((mac1, dnets1), (mac2, dnets2)):
+            x = NPDU()
+            IAmRouterToNetwork(list(dnets)).encode(x)
+            pdu = PDU()
+            x.encode(pdu)
+            pdu.pduSource = self.nodes[(lan, mac)].address
+            pdu.pduDestination = LocalBroadcast()
+            self.nodes[(lan, mac)].indication(pdu)        # queued, not yet delivered
+        self.drain()
+
     def send_whois(self, lan, mac, dnet):
         from bacpypes.npdu import WhoIsRouterToNetwork
         self._send(lan, mac, WhoIsRouterToNetwork(dnet))
@@ -574,10 +605,21 @@ def run_msgs(msgs, learned_a, start_a=1, three=False, probe=None):
     nets = {'B': 2, 'C': 4}
     hist, out, down = [], [], set()
     for m in msgs:
-        net = netA if m[1] == 'A' else nets[m[1]]
+        net = None
+        if m[1] in ('A', 'B', 'C'):
+            net = netA if m[1] == 'A' else nets[m[1]]
         attached = {netA, 2} | ({4} if three else set())
         extra = None
-        if m[0] == 'iam':
+        if m[0] == 'iam2':
+            # two competing announcements queued in the same instant: the one queued LAST is the newest.
+            # m[6]: the process is aged first (tie-break counter of the scheduler just before 2^k), with
+            # nothing scheduled in between
+            hist.append(('L', NONE if net is None else net, m[2], m[3], 0))
+            hist.append(('L', NONE if net is None else net, m[4], m[5], 0))
+            if m[6]:
+                rig.age(m[6])
+            rig.send_iam_pair(m[1], m[2], m[3], m[4], m[5])
+        elif m[0] == 'iam':
             hist.append(('L', NONE if net is None else net, m[2], m[3], 0))
             before = rig.raised
             relay_ok = [rig.links[l].up for l in sorted(rig.links) if l != m[1]]
@@ -613,10 +655,24 @@ def run_msgs(msgs, learned_a, start_a=1, three=False, probe=None):
     return out, hist, rig, netA
 
 
+AGED_WITNESSES = [
+    # (three adapters?, learned A?, frames): a long-running process - the scheduler's same-instant tie-break
+    # counter stands just before a power-of-two boundary (2^16, 2^20 and every smaller one) - receives two
+    # competing announcements for the same (attached net, dnet) back to back in one clock instant; the one
+    # queued last is the newest and must win
+    (False, False, [('iam2', 'A', 1, (10,), 2, (10,), 1 << 16)]),
+    (False, False, [('iam', 'A', 3, (10, 11)), ('iam2', 'A', 1, (10, 12), 2, (10, 11), 1 << 16)]),
+    (True, True, [('iam2', 'B', 2, (10, 11), 3, (11,), 1 << 20), ('iam2', 'C', 1, (12,), 1, (13,), 1 << 16),
+                  ('iam2', 'A', 3, (13,), 1, (13, 10), 1 << 16)]),
+    (False, True, [('iam2', 'A', 1, (10,), 2, (10,), 1 << 20), ('nni', 'A', 1, 3), ('iam2', 'A', 2, (10,), 1, (10,), 1 << 16)]),
+    (False, False, [('iam2', 'B', 1, (10,), 2, (10,), 0), ('iam2', 'B', 2, (11,), 1, (11,), 0)]),     # young process
+]
+
+
 def case_nsap(msgs, learned_a, three=False):
     """expected = dump after each frame / link change; model = dump after the corresponding prefix of
     ops (which ignore the link states)"""
-    kind = 'nsap-outage' if any(m[0] == 'link' for m in msgs) else 'nsap-msgs'
+    kind = 'nsap-aged' if any(m[0] == 'iam2' for m in msgs) else 'nsap-outage' if any(m[0] == 'link' for m in msgs) else 'nsap-msgs'
     desc = {'op': 'nsap', 'learned_a': learned_a, 'three': three, 'msgs': [list(m) for m in msgs]}
     try:
         out, hist, rig, _ = run_msgs(msgs, learned_a, three=three)
@@ -698,8 +754,20 @@ def cases(rng, tier):
         out.append(case_nsap(msgs, learned_a=rng.random() < 0.6))
     # outages: the link under one or more adapters of a 2- or 3-port node goes down and comes back while
     # announcements / routed traffic / Network-Number-Is keep arriving
-    for three, learned, msgs in OUTAGE_WITNESSES:
+    for three, learned, msgs in OUTAGE_WITNESSES + AGED_WITNESSES:
         out.append(case_nsap(msgs, learned_a=learned, three=three))
+    for _ in range(200 if big else 40):
+        # random histories in an aged process: pairs of competing same-instant announcements across the boundary
+        three = rng.random() < 0.5
+        msgs = []
+        for _ in range(rng.choice([1, 2, 4])):
+            msgs += random_msgs(rng, rng.choice([0, 1, 3]), three, outage=False)
+            lan = rng.choice('ABC' if three else 'AB')
+            d = rng.choice(DN)
+            msgs += [('iam2', lan, rng.choice(AD), (d,) + tuple(rng.choice(DN) for _ in range(rng.choice([0, 1]))),
+                      rng.choice(AD), (d,) + tuple(rng.choice(DN) for _ in range(rng.choice([0, 1]))),
+                      rng.choice([1 << 16, 1 << 16, 1 << 20, 0]))]
+        out.append(case_nsap(msgs, learned_a=rng.random() < 0.5, three=three))
     for _ in range(1500 if big else 300):
         three = rng.random() < 0.5
         msgs = random_msgs(rng, rng.choice([4, 8, 12, 20]), three, outage=True)
@@ -915,7 +983,7 @@ def direct_nsap(rng, n_hist, failures, stats):
     """message-driven histories on 2- and 3-adapter nodes, with and without link outages, judged by
     nsap_probe after every step"""
     evals = steps = outages = raised = 0
-    plan = [(three, True, (learned, msgs)) for three, learned, msgs in OUTAGE_WITNESSES]
+    plan = [(three, True, (learned, msgs)) for three, learned, msgs in AGED_WITNESSES + OUTAGE_WITNESSES]
     plan += [(False, False, None)] * n_hist + [(None, True, None)] * n_hist
     for three, outage, fixed in plan:
         if fixed:
